@@ -74,5 +74,8 @@ class LargeCommunity(Attribute):
                     data=value
                 )
 
+        if len(large_community_hex) > 255:
+            return struct.pack('!B', cls.FLAG + AttributeFlag.EXTENDED_LENGTH) + struct.pack('!B', cls.ID) \
+                + struct.pack('!H', len(large_community_hex)) + large_community_hex
         return struct.pack('!B', cls.FLAG) + struct.pack('!B', cls.ID) \
             + struct.pack('!B', len(large_community_hex)) + large_community_hex
